@@ -4,6 +4,7 @@ import (
 	"errors"
 	"fmt"
 	"io"
+	"sync"
 	"reflect"
 	"strings"
 
@@ -70,6 +71,9 @@ const (
 	KSafeStringer // SafeValue-marked type with a String method
 	KMapIfaceKey  // map[interface{}]string with a nil key, keys of several kinds
 	KMapStructKey // map with struct keys holding interface fields (one nil)
+	KNilMapStringer // nil value of a named map type whose String method writes to the map (panics)
+	KNilSliceError  // nil value of a named slice type whose Error method indexes it (panics)
+	KNilFuncStringer // nil value of a named func type whose String method calls it (panics)
 	KFormatterWS  // fmt.Formatter writing through io.WriteString (the io.StringWriter fast path)
 	kindCount
 )
@@ -120,6 +124,18 @@ func (f fmtr) Format(st fmt.State, verb rune) {
 	w, wok := st.Width()
 	fmt.Fprintf(st, "FMT[%c|%v,%v|%s]", verb, w, wok, f.s)
 }
+
+type nilMapStr map[string]int
+
+func (c nilMapStr) String() string { c["printed"]++; return "counters" }
+
+type nilSliceErr []string
+
+func (p nilSliceErr) Error() string { return p[0] }
+
+type nilFuncStr func() string
+
+func (f nilFuncStr) String() string { return f() }
 
 type fmtrWS struct{ s string }
 
@@ -216,6 +232,8 @@ func (v *Val) Build(inst int) interface{} {
 		// pointer-shaped values: one object per (kind, id, inst) so that an
 		// address printed as public data is the same in both instantiations
 		k := [3]int{int(v.K), v.ID, inst}
+		cacheMu.Lock()
+		defer cacheMu.Unlock()
 		if x, ok := objCache[k]; ok {
 			return x
 		}
@@ -227,6 +245,7 @@ func (v *Val) Build(inst int) interface{} {
 }
 
 var objCache = map[[3]int]interface{}{}
+var cacheMu sync.Mutex
 
 func (v *Val) build(inst int) interface{} {
 	switch v.K {
@@ -352,6 +371,12 @@ func (v *Val) build(inst int) interface{} {
 		return safeStrg{safeStr(v.ID)}
 	case KFormatterWS:
 		return fmtrWS{unsafeStr(v.ID, inst)}
+	case KNilMapStringer:
+		return nilMapStr(nil)
+	case KNilSliceError:
+		return nilSliceErr(nil)
+	case KNilFuncStringer:
+		return nilFuncStr(nil)
 	case KMapIfaceKey:
 		return map[interface{}]string{nil: unsafeStr(v.ID, inst), 1: "one", "k": unsafeStr(v.ID+1, inst), 2.5: "f", true: "t"}
 	case KMapStructKey:
@@ -382,11 +407,14 @@ func sameShapeBytes(s string, inst int) []byte {
 }
 
 var ptrCache = map[[2]int]*ptrStruct{}
+var ptrMu sync.Mutex
 
 // ptrFor returns the same pointer for the same (id, inst), so that an address
 // printed as public data is shared by both instantiations.
 func ptrFor(id, inst int) *ptrStruct {
 	k := [2]int{id, inst}
+	ptrMu.Lock()
+	defer ptrMu.Unlock()
 	if p, ok := ptrCache[k]; ok {
 		return p
 	}
@@ -430,7 +458,9 @@ func (v *Val) hasKind(ks ...VKind) bool {
 	return false
 }
 
-func (v *Val) panics() bool { return v.hasKind(KPanicStringer, KPanicError, KPanicSafeFormatter) }
+func (v *Val) panics() bool {
+	return v.hasKind(KPanicStringer, KPanicError, KPanicSafeFormatter, KNilMapStringer, KNilSliceError, KNilFuncStringer)
+}
 
 // ownClass: the value (or a part of it) has a classification of its own.
 func (v *Val) ownClass() bool {
@@ -440,7 +470,7 @@ func (v *Val) ownClass() bool {
 var leafKinds = []VKind{KNil, KBool, KInt, KInt8, KUint16, KUint64, KUintptr, KFloat, KComplex, KString, KBytes, KNamedStr, KNamedInt,
 	KSafeStr, KSafeInt, KRegInt, KRegStruct, KErr, KStringer, KPStringer, KNilStringer, KGoStringer, KFormatter, KSafeFormatter, KSafeMessager,
 	KErrFormatter, KErrStringer, KPanicStringer, KPanicError, KPanicSafeFormatter, KPtrStruct, KNilPtr, KIntPtr, KStrSlice, KIntArr, KMapKeyed,
-	KRedactable, KRedactableB, KChan, KFunc, KByteArr, KDuration, KBuilder, KSafeStringer, KFormatterWS, KMapIfaceKey, KMapStructKey}
+	KRedactable, KRedactableB, KChan, KFunc, KByteArr, KDuration, KBuilder, KSafeStringer, KFormatterWS, KMapIfaceKey, KMapStructKey, KNilMapStringer, KNilSliceError, KNilFuncStringer}
 
 var redactPool = []string{"", "plain", "‹x›", "a ‹b› c", "‹a›\n‹b›", "?‹?›", "‹×›", "‹ ›x\n", "pre‹u1›mid‹u2›post", "‹q?z›"}
 
@@ -506,7 +536,7 @@ func (v *Val) String() string {
 		KPanicSafeFormatter: "panicSafeFormatter", KPtrStruct: "*struct", KNilPtr: "nil*struct", KIntPtr: "*int", KReflectValue: "reflect.Value",
 		KSafe: "Safe", KUnsafe: "Unsafe", KSlice: "[]any", KStrSlice: "[]string", KIntArr: "[2]int", KMap: "map", KMapKeyed: "map[MyStr]int",
 		KStruct: "struct", KRedactable: "RedactableString", KRedactableB: "RedactableBytes", KChan: "chan", KFunc: "func", KByteArr: "[3]byte",
-		KDuration: "dur", KBuilder: "*StringBuilder", KSafeStringer: "SafeStringer", KFormatterWS: "FormatterWS", KMapIfaceKey: "map[any]string", KMapStructKey: "map[struct]int"}
+		KDuration: "dur", KBuilder: "*StringBuilder", KSafeStringer: "SafeStringer", KFormatterWS: "FormatterWS", KMapIfaceKey: "map[any]string", KMapStructKey: "map[struct]int", KNilMapStringer: "nilMapStringer", KNilSliceError: "nilSliceError", KNilFuncStringer: "nilFuncStringer"}
 	s := names[v.K]
 	if v.K == KRedactable || v.K == KRedactableB {
 		s += fmt.Sprintf("%q", v.R)
